@@ -136,6 +136,8 @@ def run(res, tier, seed):
                     nm = "NSS.%s.%s.D03095.S0607.E0609.B0000000.WI" % (m, p)
                     files.append((fmt, nm, "ascii"))
             files.append((fmt, "NSS.%s.%s.D03095.S0607.E0609.B0000000.WI" % (ml[0], idl[0]), "ebcdic"))
+            # readable EBCDIC header name, stored under a file name that carries the name of the OTHER resolution of the family
+            files.append((fmt, "NSS.%s.%s.D03095.S0607.E0609.B0000000.WI" % (ml[-1], idl[2]), "ebcdic-conflict"))
             if fam == "pod":
                 files.append((fmt, "NSS.%s.%s.D03095.S0607.E0609.B0000000.WI" % (rng.choice(ml), rng.choice(idl)), "blank-tbm"))
             if fam == "pod":       # the 44-byte name field padded with non-ASCII bytes behind the 42-character name
@@ -150,6 +152,10 @@ def run(res, tier, seed):
             if enc == "ebcdic":
                 data = make_file(fmt, nm, header_name=nm.encode("cp500"))
                 fname = "somefile"
+            elif enc == "ebcdic-conflict":
+                data = make_file(fmt, nm, header_name=nm.encode("cp500"))
+                other_mode = "LHRR" if ".GHRR." in nm else "GHRR"
+                fname = "/data/" + nm.replace(nm.split(".")[1], other_mode, 1)
             elif enc == "highpad":
                 data = make_file(fmt, nm, header_name=nm.encode("ascii") + rng.choice([b"\x80\x80", b"\xff\xff", b" \xe9"]))
                 fname = "somefile"
